@@ -445,3 +445,224 @@ def check_exp_dependence(run, rule='R17'):
                               'twist is lost, exp(S, theta) != exp(theta * S) for the negative of a unit element' % (src(e, 50), S), f=f, node=r)
         if n < 2:
             run.error('R17: %s: fewer than 2 non-identity returns evaluated' % key)
+
+
+# ------------------------------------------------------------------------------------------------ (g) constructor forms
+FAULT = 'FAULT'
+SCALAR = ('scalar', 0, 'number')
+
+
+def _class_shape(prog, cls):
+    k, mem = prog.lookup_member(cls, 'shape')
+    if mem is None or not hasattr(mem, 'node'):
+        return None
+    for r in ast.walk(mem.node):
+        if isinstance(r, ast.Return) and isinstance(r.value, ast.Tuple) and all(isinstance(x, ast.Constant) for x in r.value.elts):
+            return tuple(x.value for x in r.value.elts)
+    return None
+
+
+def _arghandler_abs(shape, val):
+    """outcome of SMUserList.arghandler for an abstract argument: True / False / None (depends on the values)"""
+    kind, k, cont = val
+    if shape is None:
+        return None
+    if kind == 'scalar':
+        return False
+    if cont == 'list':
+        if kind == 'vec':
+            return len(shape) == 1 and shape[0] == k      # isnumberlist path of vector classes
+        return False                                       # rows as a list of lists of numbers: no branch takes it
+    # ndarray: stored through _import, i.e. only when isvalid (shape and, with check, membership) holds
+    if kind == 'vec':
+        return None if (len(shape) == 1 and shape[0] == k) else False
+    if kind == 'sq':
+        return None if shape == (k, k) else False
+    return False
+
+
+def eval_guard2(t, S, val, nones, flags, shape):
+    """three-valued (+ FAULT) evaluation; short-circuit semantics of and/or are respected"""
+    if isinstance(t, ast.BoolOp):
+        is_and = isinstance(t.op, ast.And)
+        res = True if is_and else False
+        for x in t.values:
+            v = eval_guard2(x, S, val, nones, flags, shape)
+            if v == FAULT:
+                return FAULT
+            if is_and:
+                if v is False:
+                    return False
+                if v is None:
+                    res = None
+            else:
+                if v is True:
+                    return True
+                if v is None:
+                    res = None
+        return res
+    if isinstance(t, ast.UnaryOp) and isinstance(t.op, ast.Not):
+        v = eval_guard2(t.operand, S, val, nones, flags, shape)
+        return v if v in (None, FAULT) else (not v)
+    kind, k, cont = val
+    if isinstance(t, ast.Compare) and len(t.ops) == 1:
+        l, r = t.left, t.comparators[0]
+        if isinstance(t.ops[0], (ast.Is, ast.IsNot)) and isinstance(r, ast.Constant) and r.value is None and isinstance(l, ast.Name):
+            isnone = (l.id in nones) if l.id != S else False
+            return isnone if isinstance(t.ops[0], ast.Is) else (not isnone)
+        if isinstance(t.ops[0], (ast.Eq, ast.NotEq)):
+            c = _const(r)
+            got = None
+            if matches('len(%s)' % S, l) is not None:
+                if kind == 'scalar':
+                    return FAULT
+                got = k if kind in ('vec', 'sq') else '?'
+            b = matches('%s.shape[_I]' % S, l)
+            if b is not None and isinstance(b['_I'], ast.Constant):
+                i = b['_I'].value
+                if cont != 'ndarray':
+                    return FAULT
+                if kind == 'vec':
+                    if i >= 1:
+                        return FAULT
+                    got = k
+                elif kind == 'sq':
+                    got = k
+                else:
+                    got = k if i == 1 else '?'
+            if got is not None and got != '?' and c != '?':
+                return (got == c) if isinstance(t.ops[0], ast.Eq) else (got != c)
+            if matches('%s.ndim' % S, l) is not None and c != '?':
+                if cont != 'ndarray':
+                    return FAULT
+                nd = 1 if kind == 'vec' else 2
+                return (nd == c) if isinstance(t.ops[0], ast.Eq) else (nd != c)
+            if matches('%s.shape' % S, l) is not None and isinstance(r, ast.Tuple) and all(isinstance(x, ast.Constant) for x in r.elts):
+                if cont != 'ndarray':
+                    return FAULT
+                want = tuple(x.value for x in r.elts)
+                if kind == 'vec':
+                    eq = want == (k,)
+                elif kind == 'sq':
+                    eq = want == (k, k)
+                else:
+                    eq = None if (len(want) == 2 and want[1] == k) else False
+                if eq is None:
+                    return None
+                return eq if isinstance(t.ops[0], ast.Eq) else (not eq)
+            return None
+    if isinstance(t, ast.Name) and t.id in flags:
+        return bool(flags[t.id])
+    if isinstance(t, ast.Call):
+        if isinstance(t.func, ast.Attribute) and t.func.attr == 'arghandler':
+            return _arghandler_abs(shape, val) if (t.args and isinstance(t.args[0], ast.Name) and t.args[0].id == S) else None
+        fn = t.func.id if isinstance(t.func, ast.Name) else (t.func.attr if isinstance(t.func, ast.Attribute) else None)
+        if t.args and isinstance(t.args[0], ast.Name) and t.args[0].id == S:
+            if fn == 'isscalar':
+                return kind == 'scalar'
+            if fn == 'isvector':
+                if kind == 'scalar':
+                    return None
+                if len(t.args) > 1:
+                    n = _const(t.args[1])
+                    return None if n == '?' else (kind == 'vec' and k == n)
+                return kind == 'vec'
+            if fn in ('isrot', 'ishom', 'isrot2', 'ishom2'):
+                need = {'isrot': 3, 'ishom': 4, 'isrot2': 2, 'ishom2': 3}[fn]
+                return None if (kind == 'sq' and k == need and cont == 'ndarray') else False
+            if fn == 'ismatrix':
+                return eval_guard(t, S, val, flags)
+            if fn == 'isinstance' and len(t.args) > 1:
+                txt = ast.unparse(t.args[1])
+                if 'ndarray' in txt:
+                    return cont == 'ndarray'
+                if txt in ('(list, tuple)', 'list', 'tuple'):
+                    return cont == 'list'
+                return False if kind in ('vec', 'sq', 'rows', 'scalar') else None     # a library class: not for raw data
+        if fn == 'isinstance' and t.args and isinstance(t.args[0], ast.Subscript) and isinstance(t.args[0].value, ast.Name) and t.args[0].value.id == S:
+            if kind == 'scalar':
+                return FAULT
+            return False
+    return None
+
+
+def _explore(fi, stmts, S, val, nones, flags, shape, out, depth=0):
+    """collect outcomes ('store'|'raise'|'fault', node); returns True when control can fall through the statement list"""
+    for st in stmts:
+        if isinstance(st, ast.If):
+            v = eval_guard2(canon(fi, st.test, inline=False), S, val, nones, flags, shape)
+            if v == FAULT:
+                out.append(('fault', st))
+                return False
+            ft = []
+            if v is not False:
+                ft.append(_explore(fi, st.body, S, val, nones, flags, shape, out, depth + 1))
+            if v is not True:
+                ft.append(_explore(fi, st.orelse, S, val, nones, flags, shape, out, depth + 1) if st.orelse else True)
+            if not any(ft):
+                return False
+            continue
+        if isinstance(st, ast.Raise):
+            out.append(('raise', st))
+            return False
+        if isinstance(st, ast.Return):
+            out.append(('store', st))
+            return False
+        if isinstance(st, ast.Assign) and any(isinstance(t, ast.Attribute) and t.attr == 'data' for t in st.targets):
+            out.append(('store', st))
+            continue
+        if isinstance(st, ast.Assert):
+            v = eval_guard2(canon(fi, st.test, inline=False), S, val, nones, flags, shape)
+            if v == FAULT:
+                out.append(('fault', st))
+                return False
+            if v is False:
+                out.append(('raise', st))
+                return False
+    return True
+
+
+CTOR_FORMS = {
+    'quaternion:UnitQuaternion.__init__': ('UnitQuaternion', [('4-vector as list', vec(4, 'list')), ('4-vector as ndarray(4)', vec(4, 'ndarray')),
+                                                              ('SO(3) matrix', sq(3)), ('SE(3) matrix', sq(4)), ('Nx4 ndarray', rows(4, 'ndarray'))]),
+    'quaternion:Quaternion.__init__': ('Quaternion', [('4-vector as list', vec(4, 'list')), ('4-vector as ndarray(4)', vec(4, 'ndarray'))]),
+    'pose3d:SE3.__init__': ('SE3', [('translation as list', vec(3, 'list')), ('translation as ndarray(3)', vec(3, 'ndarray')), ('SE(3) matrix', sq(4)),
+                                    ('Nx3 ndarray', rows(3, 'ndarray'))]),
+    'pose2d:SE2.__init__': ('SE2', [('[x, y] as list', vec(2, 'list')), ('[x, y] as ndarray', vec(2, 'ndarray')), ('[x, y, theta] as list', vec(3, 'list')),
+                                    ('[x, y, theta] as ndarray', vec(3, 'ndarray')), ('SE(2) matrix', sq(3)), ('angle', SCALAR)]),
+    'pose2d:SO2.__init__': ('SO2', [('angle', SCALAR), ('angles as list', vec(5, 'list')), ('angles as ndarray', vec(5, 'ndarray')), ('SO(2) matrix', sq(2))]),
+}
+
+
+def check_ctor_forms(run, rule='R21'):
+    """Each documented single-argument form of the constructors is pushed through the guards; outcomes are explored on both sides
+    of value-dependent guards (validation may fail).  A guard that FAULTS for a documented form (x.shape[1] of a 1-D array,
+    len() of a scalar) raises IndexError/TypeError instead of taking or rejecting the value; a form with no storing path is
+    rejected although documented."""
+    prog = run.prog
+    n = 0
+    for key, (cn, forms) in CTOR_FORMS.items():
+        f = prog.func(key)
+        fi = FuncInfo.of(f)
+        ps = [p for p in f.params if p != f.selfname]
+        S = ps[0]
+        nones = {p for p, d in f.defaults().items() if isinstance(d, ast.Constant) and d.value is None and p != S}
+        flags = {p: d.value for p, d in f.defaults().items() if isinstance(d, ast.Constant) and isinstance(d.value, bool) and p not in ('check', 'norm')}
+        shape = _class_shape(prog, prog.cls(cn))
+        for (label, val) in forms:
+            out = []
+            _explore(fi, body_nodoc(f.node), S, val, nones, flags, shape, out)
+            n += 1
+            construct = 'constructor form: ' + label
+            faults = [x for x in out if x[0] == 'fault']
+            stores = [x for x in out if x[0] == 'store']
+            if faults:
+                node = faults[0][1]
+                run.violation(rule, key, construct, 'for the documented form "%s" the guard `%s` is reached (when the validating branch declines the value) '
+                              'and cannot be evaluated for this form (subscript of a 1-D shape / len of a scalar): the constructor raises '
+                              'IndexError/TypeError instead of storing or rejecting the value' % (label, src(node.test, 50)), f=f, node=node)
+            elif not stores:
+                run.violation(rule, key, construct, 'no path stores a value for the documented form "%s": it is always rejected' % label, f=f)
+            else:
+                run.holds(rule, key, construct, '%d storing path(s), no faulting guard' % len(stores), f=f, node=stores[0][1])
+    return n
